@@ -39,6 +39,7 @@ Definition F_hang_act_peer := 15%N.    Definition F_hang_act_sigterm := 16%N.
 Definition F_hang_clean_2 := 17%N.     Definition F_hang_act_spot := 18%N.
 Definition F_hang_act_foul := 19%N.
 Definition F_graceful := 20%N.
+Definition F_foul_S_chatty := 21%N.   (* -S foul during a long action, chatty spotlight *)
 Definition is_hang (f : N) : bool := (13 <=? f)%N && (f <=? 19)%N.
 
 Definition rows_n (n : Z) (rows : list (Z * Z * Z * Z)) : list (Z * Z * Z * Z) :=
@@ -148,7 +149,7 @@ Definition labels_of (f : N) : bool * list label :=
   else if (f =? F_clean_fails_1)%N then (false, [LCleanup1 false])
   else if (f =? F_clean_fails_2)%N then
     (false, [LCleanup1 true; LScene; LScene; LScene; LFinP true ENil; LPick CP] ++ tail_ok ++ [LDefer false; LCleanup2 false])
-  else if (f =? F_foul_S)%N || (f =? F_expr_S)%N then
+  else if (f =? F_foul_S)%N || (f =? F_expr_S)%N || (f =? F_foul_S_chatty)%N then
     (false, [LCleanup1 true; LScene; LFin CK EViol; LPick CK] ++ tail_cancelled CK ++ [LDefer true; LCleanup2 true])
   else if (f =? F_expr)%N then
     (false, [LCleanup1 true; LScene; LScene; LScene; LFinP true ENil; LPick CP;
